@@ -65,6 +65,7 @@ func (server *SugarDB) getHandlerFuncParams(ctx context.Context, cmd []string, c
 		SwapDBs:               server.SwapDBs,
 		GetServerInfo:         server.GetServerInfo,
 		DeleteKey: func(ctx context.Context, key string) error {
+			verifPoint("ks.deleteKey")
 			server.storeLock.Lock()
 			defer server.storeLock.Unlock()
 			return server.deleteKey(ctx, key)
@@ -104,6 +105,7 @@ func (server *SugarDB) getHandlerFuncParams(ctx context.Context, cmd []string, c
 }
 
 func (server *SugarDB) handleCommand(ctx context.Context, message []byte, conn *net.Conn, replay bool, embedded bool) ([]byte, error) {
+	verifPointCmd("cmd.enter", 0, message)
 	// Prepare context before processing the command.
 	server.connInfo.mut.RLock()
 	if embedded && !replay {
